@@ -91,6 +91,7 @@ def build_harness(variant, name):
     extra = {
         "h_conv": ["ref_conv.c", "ref_g711.c", "ref_adpcm.c", "h_c20.c"],
         "h_rdwr": ["ref_g711.c"],
+        "h_meta": ["h_chunks.c"],
     }.get(name, [])
     srcs = COMMON_SRC + extra + [name + ".c"]
     objs = []
